@@ -91,6 +91,7 @@ type SpecParam struct {
 }
 
 type SpecFunc struct {
+	Uninterpreted bool // `ufunc`: declared, never defined
 	Name    string
 	PkgPath string
 	Params  []SpecParam
@@ -149,6 +150,13 @@ func (cs *ContractSet) ParseContractText(text, path, pkgPath string) error {
 		where := fmt.Sprintf("%s:%d", path, rc.line)
 		word, rest := splitWord(rc.text)
 		switch word {
+		case "ufunc":
+			sf, err := parseSpecFunc("spec", rest+" := 0", pkgPath, where)
+			if err != nil {
+				return fmt.Errorf("%s: %v", where, err)
+			}
+			sf.Uninterpreted = true
+			cs.Specs[pkgPath+"."+sf.Name] = sf
 		case "pred", "spec":
 			sf, err := parseSpecFunc(word, rest, pkgPath, where)
 			if err != nil {
